@@ -195,6 +195,54 @@ META = {
 }
 
 
+# ------------------------------------------------------------------ C05.image: whole AKAI volumes / Roland performances with near-colliding names
+SAFE_AKAI = [0, 1, 2, 3, 4, 5, 6, 7, 8, 19, 20, 21]          # classes of nameimg.AKAI_NAMES that are their own export name (no sanitising involved)
+SAFE_ROLAND = [0, 1, 2, 3, 4, 5, 6, 7, 12, 22, 27]
+
+
+def h_image(fmt: int, n: int, i0: int, i1: int, i2: int, i3: int) -> int:
+    """
+    pre: 0 <= fmt <= 1 and 2 <= n <= 4 and 0 <= i0 <= 27 and 0 <= i1 <= 27 and 0 <= i2 <= 27 and 0 <= i3 <= 27
+    post: _ == 1
+    """
+    CNT[0] += 1
+    from vf.util import conc, untraced
+    fmt, n = conc(fmt, 0, 1), conc(n, 2, 4)
+    idx = [conc(i, 0, 27) for i in (i0, i1, i2, i3)[:n]]
+    with untraced():
+        from vf import nameimg as N
+        from vf.props import c16
+        table = N.AKAI_NAMES if fmt == 0 else N.ROLAND_NAMES
+        safe = SAFE_AKAI if fmt == 0 else SAFE_ROLAND
+        if any(i not in safe for i in idx) or len(set(idx)) != n:
+            return 1                                     # names that are their own export names, pairwise distinct (the rest is C06's)
+        names = [table[i] for i in idx]
+        # what the statement prescribes: L/R pairs -> one two-channel file named after the stem, L in channel 0; everything else mono under its own name
+        want, used = {}, set()
+        for a in range(n):
+            for b in range(n):
+                if a != b and N.statement_pair(names[a], names[b]):
+                    want[N.stem(names[a])] = [a, b]
+                    used |= {a, b}
+        for a in range(n):
+            if a not in used:
+                if names[a] in want:
+                    return 1                             # a pair's stem equals another sibling's name: C06's known finding, not decided here
+                want[names[a]] = [a]
+        img, _d, prefix = N.build(fmt, names)
+        _k, files, _log = c16._do(N.open_image(img), ("export", None))
+        got = {}
+        for path, wav in files:
+            ch, data = N.pcm_of(wav)
+            if not path.startswith(prefix) or not path.endswith(".wav"):
+                return 0
+            got[path[len(prefix):-4]] = N.which_samples(fmt, names, ch, data)
+        if got != want:
+            return 0
+    return 1
+
+
+
 def obligations(tier, seed):
     q = tier == "quick"
     obs = []
@@ -210,4 +258,6 @@ def obligations(tier, seed):
     for o in c12.obligations(tier, seed):
         if "/ch=1+1/" in o["name"] and "src=LL/dst=L/host=L" in o["name"]:
             obs.append(dict(o, name=o["name"].replace("C12.cfg", "C05.interleave/transcoder")))
+    for o in c06.image_obligations("C05.image", "vf.props.c05", tier, dup=False):
+        obs.append(o)
     return obs
